@@ -24,7 +24,7 @@ type WinsCase struct {
 	Prop   string            `json:"prop"`
 	Kind   string            `json:"kind"`
 	Names  []string          `json:"names"`
-	When   map[string]string `json:"when"` // never | stock | before | after | after-run
+	When   map[string]string `json:"when"`            // never | stock | before | after | after-run
 	Plain  map[string]bool   `json:"plain,omitempty"` // the script's function takes no argument and returns a small number
 	NoOpt  bool              `json:"noopt"`
 	Script string            `json:"script"`
